@@ -165,15 +165,21 @@ fn fit_cases(f: &mut Findings) {
     use levenberg_marquardt::LevenbergMarquardt;
     let (n, m, p) = (16usize, 2usize, 2usize);
     for s in 1..=2usize {
-        for &pat in [100usize, 1].iter() {
+        // budgets 100 and 1; a common weight 0.5 for every row; tolerances of 0 (the optimizer then ends with NoImprovementPossible,
+        // which is NOT a successful termination)
+        for &(pat, wk, zero_tol) in [(100usize, 0usize, false), (1, 0, false), (100, 1, false), (100, 0, true)].iter() {
             let y = ydata(n, s);
+            let w: Option<DVector<f64>> = if wk == 1 { Some(DVector::from_element(n, 0.5)) } else { None };
             let ctl = std::rc::Rc::new(Ctl::default());
-            let pr = LevMarProblemBuilder::mrhs(Faulty { inner: model(n, m, p), ctl: ctl.clone() }).observations(y.clone()).build().unwrap();
+            let mut b = LevMarProblemBuilder::mrhs(Faulty { inner: model(n, m, p), ctl: ctl.clone() }).observations(y.clone());
+            if let Some(w) = &w { b = b.weights(w.clone()); }
+            let pr = b.build().unwrap();
             let obj0 = pr.residuals().map(|r| 0.5 * r.norm_squared()).unwrap_or(f64::INFINITY);
             let before = ctl.sets.get();
-            let r = LevMarSolver::with_solver(LevenbergMarquardt::new().with_patience(pat)).fit(pr);
+            let lm = if zero_tol { LevenbergMarquardt::new().with_ftol(0.).with_xtol(0.).with_gtol(0.) } else { LevenbergMarquardt::new() };
+            let r = LevMarSolver::with_solver(lm.with_patience(pat)).fit(pr);
             let evals = ctl.sets.get() - before;
-            let cfg = format!("for N={} M={} P={} S={} patience={}", n, m, p, s, pat);
+            let cfg = format!("for N={} M={} P={} S={} patience={} weights={} tolerances={}", n, m, p, s, pat, if wk == 1 { "all 0.5" } else { "none" }, if zero_tol { "0" } else { "default" });
             let (fr, ok) = match r { Ok(fr) => (fr, true), Err(fr) => (fr, false) };
             if ok != fr.minimization_report.termination.was_successful() { f.report("C04", "fit() returns Ok / Err contrary to the optimizer's termination reason", format!("({:?}, returned {}) {}", fr.minimization_report.termination, if ok { "Ok" } else { "Err" }, cfg)); }
             // the optimizer's budget is patience * (P + 1) residual evaluations; every evaluation applies the parameters once
@@ -181,7 +187,7 @@ fn fit_cases(f: &mut Findings) {
             if evals > pat * (p + 1) + 2 { f.report("C04", "fit() exceeds the evaluation budget of the supplied optimizer configuration", format!("({} parameter applications, budget {}) {}", evals, pat * (p + 1), cfg)); }
             if ok {
                 let alpha = fr.nonlinear_parameters();
-                let o = oracle(n, m, p, alpha.as_slice(), &None, &y);
+                let o = oracle(n, m, p, alpha.as_slice(), &w, &y);
                 match (fr.problem.residuals(), fr.problem.linear_coefficients()) {
                     (Some(res), Some(c)) => {
                         if close(&colm(res.as_slice()), &colm(o.resid.as_slice())).is_some() || close(&c.into_owned(), &o.coeff).is_some() { f.report("C04 C02", "a successful fit result exposes residuals / coefficients that do not belong to its nonlinear parameters", cfg.clone()); }
@@ -517,6 +523,18 @@ fn stats_sweep() {
             f.report(&format!("C14{}", wt), "confidence_band_radius(0.9) is not t(0.95; N-M-P) * sqrt(j_i^T Cov j_i) for every sample (t = 1.7056 for 26, 1.7011 for 28 degrees of freedom)", cfg.clone());
         }
     }
+    }
+    // C12 / C04: a minimisation that does not end successfully (tolerances of 0: NoImprovementPossible) gives Err, never statistics
+    {
+        use levenberg_marquardt::LevenbergMarquardt;
+        let (n, m, p) = (30usize, 2usize, 2usize);
+        let y = ydata(n, 1).column(0).into_owned();
+        let mk = || LevMarProblemBuilder::new(model(n, m, p)).observations(y.clone()).build().unwrap();
+        let lm = || LevenbergMarquardt::new().with_ftol(0.).with_xtol(0.).with_gtol(0.);
+        let reason = match LevMarSolver::with_solver(lm()).fit(mk()) { Ok(fr) => fr.minimization_report.termination, Err(fr) => fr.minimization_report.termination };
+        if !reason.was_successful() && LevMarSolver::with_solver(lm()).fit_with_statistics(mk()).is_ok() {
+            f.report("C12 C04", "fit_with_statistics returns Ok although the minimisation did not end successfully", format!("(termination {:?} with all tolerances 0)", reason));
+        }
     }
     // C09: a derivative that fails AFTER the minimisation (inside the statistics) makes fit_with_statistics return Err, no panic
     {
